@@ -146,10 +146,20 @@ func newReq(id string, mark int) *http.Request {
 // entry whatever its status (101 Switching Protocols ends an exchange too).
 var statuses = []int{200, 200, 204, 206, 301, 304, 404, 500, 503, 101, 100, 103, 199}
 
+// content types of recorded responses, including values that are not valid
+// UTF-8 (a Latin-1 file name) or need JSON escaping: whatever the exchange
+// carried, exports through the HTTP handlers must still list every entry.
+var ctypes = []string{"", "text/plain", "application/json; charset=utf-8", "text/plain; name=\"caf\xe9.txt\"",
+	"application/octet-stream; filename=\"a\\b\"c\"", "text/html;\tcharset=\"iso-8859-1\"", "\xff\xfe/\x80", "image/png"}
+
 func newRes(req *http.Request, mark int) *http.Response {
+	hdr := http.Header{"X-Mark": []string{strconv.Itoa(mark)}}
+	if ct := ctypes[(mark/3)%len(ctypes)]; ct != "" {
+		hdr.Set("Content-Type", ct)
+	}
 	return &http.Response{
 		StatusCode: statuses[mark%len(statuses)], Proto: "HTTP/1.1", ProtoMajor: 1, ProtoMinor: 1,
-		Header:  http.Header{"X-Mark": []string{strconv.Itoa(mark)}},
+		Header:  hdr,
 		Body:    http.NoBody,
 		Request: req,
 	}
